@@ -56,7 +56,9 @@ def shared_attr(s, D):
          "variant_field": f'"{{_variant}}/{f0}"', "dbg": '"{_variant:?}"', "padded": '"{_variant:>5}"',
          "pos_dbg": '"{:?}", _variant', "twice_padded": '"{_variant}|{_variant:>6}"', "alias_dbg": '"{v:?}", v = _variant',
          # a positional placeholder may land on an argument that carries an alias (format_args! counts every argument)
-         "pos_after_alias": '"[{}]", v = _variant'}[s]
+         "pos_after_alias": '"[{}]", v = _variant',
+         # one bare placeholder that is not `_variant`: still only a default for variants without an attribute
+         "bare_expr": '"{}", 7 + 1', "bare_field": f'"{f0}"', "bare_alias_expr": '"{n}", n = 7 + 1'}[s]
     return f"#[{a}({m})]\n" if m else ""
 
 
